@@ -122,10 +122,10 @@ func RunC12(c *Ctx) {
 		decodeCheck(c, cs, "Float64", d, rjson.ReadFloat64, rjson.DecodeFloat64, [2]float64{-7.25e77, 3.5}, func(a, b float64) bool { return math.Float64bits(a) == math.Float64bits(b) })
 		decodeCheck(c, cs, "Int64", d, rjson.ReadInt64, rjson.DecodeInt64, [2]int64{-987654321987, 42}, eqc[int64])
 		decodeCheck(c, cs, "Int32", d, rjson.ReadInt32, rjson.DecodeInt32, [2]int32{-98765432, 42}, eqc[int32])
-		decodeCheck(c, cs, "Int", d, rjson.ReadInt, rjson.DecodeInt, [2]int{-987654321987, 42}, eqc[int])
+		decodeCheck(c, cs, "Int", d, rjson.ReadInt, rjson.DecodeInt, [2]int{sentInt, 42}, eqc[int])
 		decodeCheck(c, cs, "Uint64", d, rjson.ReadUint64, rjson.DecodeUint64, [2]uint64{987654321987, 42}, eqc[uint64])
 		decodeCheck(c, cs, "Uint32", d, rjson.ReadUint32, rjson.DecodeUint32, [2]uint32{987654321, 42}, eqc[uint32])
-		decodeCheck(c, cs, "Uint", d, rjson.ReadUint, rjson.DecodeUint, [2]uint{987654321987, 42}, eqc[uint])
+		decodeCheck(c, cs, "Uint", d, rjson.ReadUint, rjson.DecodeUint, [2]uint{sentUint, 42}, eqc[uint])
 		decodeCheck(c, cs, "String", d,
 			func(b []byte) (string, int, error) { return rjson.ReadString(b, nil) },
 			func(b []byte, v *string) (int, error) { return rjson.DecodeString(b, v, nil) },
